@@ -488,6 +488,9 @@ def finish(prop, tier, seed, res, rule, t0, assumptions, min_events=None, exhaus
         'known_findings_hit': {sig: n for sig, (_, n) in knownhits.items()},
         'violation_samples': [{'signature': v['signature'], 'message': v['message']} for v in real[:10]],
         'rustc': rustc_version(),
+        'legend': ('samples show case programs as fed to the driver (op codes: harness/src/main.rs header; every f64 is the 16-hex-digit '
+                   'pattern of its bits) and observations as value[bits]; counters / distinct_sets / worst_ratio are measured by this run; '
+                   'worst_ratio = max |error| / (n*kappa*2^-53*scale) over non-vacuous envelopes (bound = C times that, DESIGN.md section 2)'),
     }
     if exhaustive:
         coverage['exhaustive'] = True
